@@ -81,6 +81,27 @@ fn judge_header<E: ToCErr + std::fmt::Debug>(api: &'static str, case: &mut Case,
     }
 }
 
+/// derived views (`ether_payload()`, `ip_payload()`, `vlan()`, `vlan_ids()`, `payload_ether_type()`,
+/// `is_ip_payload_fragmented()`) of an accepted packet against the reference layers
+fn judge_views(api: &'static str, case: &mut Case, door: Door, b: &[u8], want: &RefResult, p: &SlicedPacket) {
+    if want.stop.is_some() {
+        return;
+    }
+    case.eval();
+    let ed = match door {
+        Door::Ether(t) => Some(t),
+        _ => None,
+    };
+    match conv::views_strict(b, p) {
+        Ok(v) => {
+            for (sig, d) in conv::check_views(api, ed, b.len(), &want.layers, &v) {
+                case.fail(sig, d);
+            }
+        }
+        Err(e) => case.fail(format!("result-not-observable:{}:views", api), format!("{}: {}", api, e)),
+    }
+}
+
 fn head(want: &RefResult, n: usize) -> RefResult {
     // reference restricted to the first `n` layers: a fault behind them does not concern a single-layer slicer
     let mut r = want.clone();
@@ -108,6 +129,9 @@ pub fn check_case(door: Door, b: &[u8], case: &mut Case) {
             case.at("SlicedPacket::from_ethernet");
             let r = SlicedPacket::from_ethernet(b);
             judge("SlicedPacket::from_ethernet", case, &want, r.as_ref().map_err(|_| String::new()).and_then(|p| conv::sliced_layers(b, p)), r.as_ref().err());
+            if let Ok(p) = &r {
+                judge_views("SlicedPacket::from_ethernet", case, door, b, &want, p);
+            }
             case.at("Ethernet2Slice::from_slice_without_fcs");
             let r = Ethernet2Slice::from_slice_without_fcs(b);
             let w1 = head(&want, 1);
@@ -147,6 +171,9 @@ pub fn check_case(door: Door, b: &[u8], case: &mut Case) {
             case.at("SlicedPacket::from_linux_sll");
             let r = SlicedPacket::from_linux_sll(b);
             judge("SlicedPacket::from_linux_sll", case, &want, r.as_ref().map_err(|_| String::new()).and_then(|p| conv::sliced_layers(b, p)), r.as_ref().err());
+            if let Ok(p) = &r {
+                judge_views("SlicedPacket::from_linux_sll", case, door, b, &want, p);
+            }
             case.at("LinuxSllSlice::from_slice");
             let r = LinuxSllSlice::from_slice(b);
             let w1 = head(&want, 1);
@@ -159,6 +186,9 @@ pub fn check_case(door: Door, b: &[u8], case: &mut Case) {
             case.at("SlicedPacket::from_ether_type");
             let r = SlicedPacket::from_ether_type(EtherType(t), b);
             judge("SlicedPacket::from_ether_type", case, &want, r.as_ref().map_err(|_| String::new()).and_then(|p| conv::sliced_layers(b, p)), r.as_ref().err());
+            if let Ok(p) = &r {
+                judge_views("SlicedPacket::from_ether_type", case, door, b, &want, p);
+            }
             if let Ok(p) = &r {
                 // the link "layer" of this door is the announced ether type with the complete input as payload
                 match &p.link {
@@ -196,6 +226,9 @@ pub fn check_case(door: Door, b: &[u8], case: &mut Case) {
             case.at("SlicedPacket::from_ip");
             let r = SlicedPacket::from_ip(b);
             judge("SlicedPacket::from_ip", case, &want, r.as_ref().map_err(|_| String::new()).and_then(|p| conv::sliced_layers(b, p)), r.as_ref().err());
+            if let Ok(p) = &r {
+                judge_views("SlicedPacket::from_ip", case, door, b, &want, p);
+            }
             let wip = refdec::decode_ip_only(b, false, None);
             case.at("IpSlice::from_slice");
             let r = IpSlice::from_slice(b);
